@@ -25,9 +25,20 @@ Theorem C16_solve_is_prefix_then_failure : forall k s1 xs1 s' xs e, steps o p an
   (forall j sj xsj, (j < k)%nat -> steps o p ans j (init_st o) = Some (sj, xsj) -> stop o p sj = false) ->
   Solves o p ans s1 s' xs e -> Solves o p ans (init_st o) s' (xs1 ++ xs) e.
 Proof. intros k. exact (solve_after_batches o p ans k (init_st o)). Qed.
+
+(* the search can go on after the failure: the state after a failed evaluation still satisfies the whole invariant (the
+   recalculation flag is raised, so the characteristics queue is rebuilt from ALL intervals before the next selection), hence the
+   next trial - and by iteration_inv every later one - is again placed by the decision rule on the full partition *)
+Theorem C16_search_continues_by_the_rule : forall s s1 x, AllInv o p s -> iteration o p s Raised = (s1, ObjectiveRaised x) ->
+  AllInv o p s1 /\ forall z s2 x2, iteration o p s1 (Value z) = (s2, Done x2) -> AllInv o p s2 /\ Selected o p s1 s2 x2.
+Proof.
+  intros s s1 x A H. pose proof (failure_keeps_invariant o L p zero_lt_half half_lt_one s s1 x A H) as A1.
+  split; [exact A1|]. intros z s2 x2 It. exact (iteration_inv o L p zero_lt_half half_lt_one s1 z s2 x2 A1 It).
+Qed.
 End C16.
 Print Assumptions C16_failure_contained.
 Print Assumptions C16_solve_is_prefix_then_failure.
+Print Assumptions C16_search_continues_by_the_rule.
 
 (* where the exception is caught, and that evaluation comes before counting, optimum update and insertion *)
 Theorem C16_skeleton_tie :
